@@ -82,7 +82,7 @@ struct CallOutcome {
     timeout: Duration,
 }
 
-async fn scenario(ctx: &Ctx, rng: &mut Rng, epmd: &net::EpmdTable, id: usize, script: Script, yields: bool) {
+async fn scenario(ctx: &Ctx, rng: &mut Rng, epmd: &net::EpmdTable, id: usize, script: Script, yields: bool, early: usize, epmd_creation: u32) {
     ctx.beat(&format!("{:?}/scenario {} first wave", script, id));
     let name = format!("x{}", id);
     let pl = net::listen_as(epmd, &name).await;
@@ -106,14 +106,20 @@ async fn scenario(ctx: &Ctx, rng: &mut Rng, epmd: &net::EpmdTable, id: usize, sc
         }
         // collect the requests
         let mut reqs: Vec<Request> = Vec::new();
-        let deadline = Instant::now() + Duration::from_millis(100);
+        // calls made before the node was started (they have timed out by the time they are answered)
+        let mut early_reqs: Vec<Request> = Vec::new();
+        let deadline = Instant::now() + Duration::from_millis(if early > 0 { 260 } else { 100 });
         let expected_requests = callers + 2 + callers.min(6);
         while reqs.len() < expected_requests {
             let left = deadline.saturating_duration_since(Instant::now()).max(Duration::from_millis(20));
             match tokio::time::timeout(left, peer.read_frame4()).await {
                 Ok(Ok(f)) => {
                     if let Some(r) = parse_request(&f) {
-                        reqs.push(r);
+                        if r.uid >= 0 && r.uid % 1000 >= 900 {
+                            early_reqs.push(r);
+                        } else {
+                            reqs.push(r);
+                        }
                     } else if !f.is_empty() {
                         log.push("unparsable request frame".into());
                     }
@@ -129,6 +135,10 @@ async fn scenario(ctx: &Ctx, rng: &mut Rng, epmd: &net::EpmdTable, id: usize, sc
             }
             return;
         }
+        for r in &early_reqs {
+            let _ = peer.write_frame4(&reply_frame(&r.reply_to, r.uid)).await;
+        }
+        log.push(format!("requests from before the node's start: {}", early_reqs.len()));
         let mut order: Vec<usize> = (0..reqs.len()).collect();
         match script {
             Script::Reversed => order.reverse(),
@@ -210,8 +220,8 @@ async fn scenario(ctx: &Ctx, rng: &mut Rng, epmd: &net::EpmdTable, id: usize, sc
             let r = &reqs[i];
             let _ = peer.write_frame4(&reply_frame(&r.reply_to, r.uid)).await;
         }
-        // repeated replies to completed (or timed-out) calls of the first wave
-        for r in reqs.iter().take(4) {
+        // repeated replies to completed (or timed-out) calls of the first wave and of the time before the start
+        for r in early_reqs.iter().chain(reqs.iter().take(4)) {
             let _ = peer.write_frame4(&reply_frame(&r.reply_to, r.uid)).await;
         }
         tokio::task::yield_now().await;
@@ -222,12 +232,33 @@ async fn scenario(ctx: &Ctx, rng: &mut Rng, epmd: &net::EpmdTable, id: usize, sc
         tokio::time::sleep(Duration::from_millis(2000)).await;
     });
     let mut node = edp_node::Node::new(format!("caller{}@127.0.0.1", id), "cookie");
+    let peer_node = format!("{}@127.0.0.1", name);
+    *epmd.creation.lock().unwrap() = epmd_creation;
+    if early > 0 {
+        // a node may connect and call before it is started (registered): those calls time out here and are
+        // answered much later, when calls made after the start are outstanding
+        if let Err(e) = node.connect(peer_node.clone()).await {
+            ctx.inconclusive(&format!("Node::connect failed: {}", e));
+            peer_task.abort();
+            return;
+        }
+        let calls: Vec<std::pin::Pin<Box<dyn std::future::Future<Output = ()> + '_>>> = (0..early)
+            .map(|c| {
+                let uid = (id as i64 % 1_000_000) * 1000 + 900 + c as i64;
+                let (node, peer_node) = (&node, &peer_node);
+                Box::pin(async move {
+                    let _ = node.rpc_call_raw_with_timeout(peer_node, "m", "f", vec![OwnedTerm::Integer(uid)], Duration::from_millis(25)).await;
+                }) as std::pin::Pin<Box<dyn std::future::Future<Output = ()> + '_>>
+            })
+            .collect();
+        super::common::join_all(calls).await;
+        ctx.count("calls_made_before_the_node_was_started", early as u64);
+    }
     if let Err(e) = node.start(0).await {
         ctx.inconclusive(&format!("Node::start failed: {}", e));
         peer_task.abort();
         return;
     }
-    let peer_node = format!("{}@127.0.0.1", name);
     if let Err(e) = node.connect(peer_node.clone()).await {
         ctx.inconclusive(&format!("Node::connect failed: {}", e));
         peer_task.abort();
@@ -288,7 +319,7 @@ async fn scenario(ctx: &Ctx, rng: &mut Rng, epmd: &net::EpmdTable, id: usize, sc
     };
     let joined = tokio::time::timeout(watchdog, all).await;
     edp_client::verif::set_callback(None);
-    ctx.class(&format!("{:?}/{}callers/{}", script, callers, if yields { "current-thread+yields" } else { "multi-thread" }));
+    ctx.class(&format!("{:?}/{}callers/{}{}", script, callers, if yields { "current-thread+yields" } else { "multi-thread" }, if early > 0 { format!("/calls-before-start/epmd-creation-{}", if epmd_creation <= 3 { epmd_creation.to_string() } else { "32bit".into() }) } else { String::new() }));
     let wit = |d: serde_json::Value| json!({"script": format!("{:?}", script), "callers": callers, "call_timeout_ms": call_timeout.as_millis() as u64, "yields": yields, "hook_hits": hits.load(Ordering::Relaxed), "detail": d});
     let (outs, no_conn_r) = match joined {
         Err(_) => {
@@ -312,7 +343,12 @@ async fn scenario(ctx: &Ctx, rng: &mut Rng, epmd: &net::EpmdTable, id: usize, sc
             Ok(v) => {
                 let want = Val::Tuple(vec![Val::atom("rex"), Val::Tuple(vec![Val::atom("reply_for"), Val::int(o.uid)])]);
                 if !v.same(&want) {
-                    ctx.viol("C17:wrong-reply", "a call returned a reply that was not addressed to it", wit(json!({"caller_uid": o.uid.to_string(), "got": v.show()})));
+                    let from_before_start = (900..1000).any(|k| v.same(&Val::Tuple(vec![Val::atom("rex"), Val::Tuple(vec![Val::atom("reply_for"), Val::int((id as i128 % 1_000_000) * 1000 + k)])])));
+                    if from_before_start {
+                        ctx.viol("C17:wrong-reply:reply-to-a-call-made-before-the-node-was-started", "a call returned the late reply to a call that was made (and had timed out) before the node was started", wit(json!({"caller_uid": o.uid.to_string(), "got": v.show(), "epmd_creation": epmd_creation})));
+                    } else {
+                        ctx.viol("C17:wrong-reply", "a call returned a reply that was not addressed to it", wit(json!({"caller_uid": o.uid.to_string(), "got": v.show()})));
+                    }
                 }
             }
             Err(e) => {
@@ -464,7 +500,7 @@ async fn scenario(ctx: &Ctx, rng: &mut Rng, epmd: &net::EpmdTable, id: usize, sc
 }
 
 pub fn run(ctx: &Ctx) {
-    ctx.rule("scenarios = 1..64 concurrent callers through one Node against a scripted rex peer x reply scripts (in order, reversed, shuffled, duplicated, some missing, some later than the caller's timeout, replies to unknown addressees, peer closes mid-run, mixed) + a second wave of calls that is outstanding while the peer delivers the first wave's late replies and repeats replies to completed calls + six callers issuing short calls in a loop while the peer's socket goes away at a seeded moment and the receiver deregisters the connection + a call to an unconnected node + a call whose request cannot be sent, on a current-thread runtime with seeded yields at the insert/send/remove and lookup/remove hooks and on a multi-thread runtime; oracle: every Ok result carries the caller's own id, every call ends, the outstanding-call table is empty at quiescence; evaluations = calls judged; distinct = distinct (script, caller count, runtime) combinations");
+    ctx.rule("scenarios = 1..64 concurrent callers through one Node against a scripted rex peer x reply scripts (in order, reversed, shuffled, duplicated, some missing, some later than the caller's timeout, replies to unknown addressees, peer closes mid-run, mixed) + a second wave of calls that is outstanding while the peer delivers the first wave's late replies and repeats replies to completed calls + six callers issuing short calls in a loop while the peer's socket goes away at a seeded moment and the receiver deregisters the connection + calls made (and timed out) before Node::start, against an EPMD that hands out creation 1, 2, 3 or a 32-bit one, answered while later calls are outstanding + a call to an unconnected node + a call whose request cannot be sent, on a current-thread runtime with seeded yields at the insert/send/remove and lookup/remove hooks and on a multi-thread runtime; oracle: every Ok result carries the caller's own id, every call ends, the outstanding-call table is empty at quiescence; evaluations = calls judged; distinct = distinct (script, caller count, runtime) combinations");
     ctx.assume("call timeouts 120..300 ms real time; a call returning later than timeout + 1.5 s is inconclusive, only the 20 s watchdog is a violation");
     let mut rng = Rng::derive(ctx.seed, 17, 1);
     let n = ctx.pick(36usize, 3000usize);
@@ -476,7 +512,9 @@ pub fn run(ctx: &Ctx) {
                 if !ctx.time_left() {
                     break;
                 }
-                scenario(ctx, &mut rng, &epmd, i, SCRIPTS[i % SCRIPTS.len()], true).await;
+                let early = if i % 4 == 1 { 1 + rng.below(3) } else { 0 };
+                let creation = *rng.pick(&[1u32, 1, 2, 3, 0x5151_0001]);
+                scenario(ctx, &mut rng, &epmd, i, SCRIPTS[i % SCRIPTS.len()], true, early, creation).await;
             }
         });
     }
@@ -488,7 +526,9 @@ pub fn run(ctx: &Ctx) {
                 if !ctx.time_left() {
                     break;
                 }
-                scenario(ctx, &mut rng, &epmd, 100_000 + i, SCRIPTS[i % SCRIPTS.len()], false).await;
+                let early = if i % 4 == 2 { 1 + rng.below(3) } else { 0 };
+                let creation = *rng.pick(&[1u32, 1, 2, 3, 0x5151_0001]);
+                scenario(ctx, &mut rng, &epmd, 100_000 + i, SCRIPTS[i % SCRIPTS.len()], false, early, creation).await;
             }
         });
     }
